@@ -142,6 +142,12 @@ class PutBlock(py4hw.Logic):
         self.r.put(self.value)
 
 
+def _kw(hw, v):
+    x = hw.wire('selk', 1)
+    py4hw.Constant(hw, 'kselk', v, x)
+    return x
+
+
 def run_extremes(d, res):
     w = d['w']
     if d.get('boundary'):
@@ -232,6 +238,30 @@ def run_extremes(d, res):
             py4hw.Neg(hw, 'g', a, hw.wire('gr', w))
             py4hw.Reg(hw, 'rg', a, hw.wire('q', w))
         run('wide_into_narrow', v, wide_to_narrow)
+
+        # two-operand and selecting primitives with ONE operand wider than the result, in either position and for either
+        # selection (each in its own system so that a constructor that refuses the shape only removes that one case)
+        def mixed(cls, pos, selv=None):
+            def build(hw):
+                ops = [hw.wire('a', w), hw.wire('b', w)]
+                ops[pos] = hw.wire('wide', w + 2)
+                py4hw.Constant(hw, 'k0', v, ops[pos])
+                py4hw.Constant(hw, 'k1', 1, ops[1 - pos])
+                r = hw.wire('r', w)
+                if selv is None:
+                    getattr(py4hw, cls)(hw, 'dut', ops[0], ops[1], r)
+                elif cls == 'Mux2':
+                    py4hw.Mux2(hw, 'dut', _kw(hw, selv), ops[0], ops[1], r)
+                else:
+                    py4hw.Mux(hw, 'dut', _kw(hw, selv), ops, r)
+            return build
+        for pos in (0, 1):
+            for cls in ('And2', 'Or2', 'Xor2', 'Nand2', 'Nor2', 'Add', 'Sub', 'Mul', 'Max2', 'Min2'):
+                if hasattr(py4hw, cls):
+                    run('mixed_widths:%s:wide_operand_%d' % (cls, pos), v, mixed(cls, pos))
+            for selv in (0, 1):
+                for cls in ('Mux2', 'Mux'):
+                    run('mixed_widths:%s:wide_operand_%d:sel_%d' % (cls, pos, selv), v, mixed(cls, pos, selv))
         # direct API
         for cls, mk in (('Wire', lambda hw: hw.wire('x', w)), ('BidirWire', lambda hw: hw.bidir_wire('x', w))):
             hw = py4hw.HWSystem()
